@@ -3,6 +3,7 @@ package c12
 import (
 	"fmt"
 	"math/rand"
+	"os"
 	"sort"
 	"strings"
 	"sync"
@@ -50,6 +51,8 @@ type params struct {
 	Stress []opSpec `json:"stress_ops,omitempty"`
 	Seed   int64    `json:"seed"`
 	MaxI   int      `json:"max_i"` // gate positions are enumerated inside the case, up to MaxI (0 = all)
+	// LateFaults: the late clients' first read of every state file fails once
+	LateFaults string `json:"late_clients_hit_a_read_fault_on,omitempty"` // "" | diamond-done | split-done
 	// Batch > 0: commits list the splits with this page size
 	Batch   int `json:"commit_listing_batch_size,omitempty"`
 	SampleJ int `json:"sample_j"`
@@ -62,6 +65,13 @@ func gen12(seed int64, tier string) []drv.Case {
 		p.Seed = r.Int63()
 		if len(cs)%3 == 1 {
 			p.Batch = []int{1, 2, 3, 5}[r.Intn(4)]
+		}
+		// late clients whose first read of a state file fails once (never in the crash families: their late
+		// commits deterministically exhibit known finding 2)
+		if strings.HasPrefix(class, "gate1") && len(cs)%2 == 0 {
+			p.LateFaults = "diamond-done"
+		} else if class == "stress" && len(cs)%3 == 0 {
+			p.LateFaults = []string{"diamond-done", "split-done"}[r.Intn(2)]
 		}
 		cs = append(cs, drv.Case{ID: fmt.Sprintf("%s-%d", class, len(cs)), Class: class, Params: drv.MustJSON(p)})
 	}
@@ -299,6 +309,13 @@ func (s *scenario) judge(res *drv.Result, where string) {
 		bundles = append(bundles, id)
 	}
 	sort.Strings(bundles)
+	res.Stat(fmt.Sprintf("schedules_ending_with_%d_bundle(s)", len(bundles)), 1)
+	if os.Getenv("VERIF_DEBUG") != "" {
+		fmt.Fprintf(os.Stderr, "JUDGE %s: bundles=%d doneLanded=%d by %s\n", where, len(bundles), doneLanded, doneBy)
+		for _, c := range s.clients {
+			fmt.Fprintf(os.Stderr, "   client %s op=%s call=%d ret=%d err=%v dead=%v\n", c.actor.Name, c.spec.Op, c.callSeq, c.retSeq, c.err, c.actor.IsDead())
+		}
+	}
 	if len(bundles) > 1 {
 		allReadyBeforeDone, anyCrashed := true, false
 		var desc []string
@@ -450,9 +467,42 @@ func run12(c drv.Case, res *drv.Result) {
 	const patience = 60 * time.Second
 	late := func(s *scenario) bool {
 		for i, o := range p.Late {
-			cl := s.start(o, fmt.Sprintf("late%d-%s", i, o.Op), nil)
+			var prep func(*memstore.Actor)
+			if p.LateFaults != "" {
+				// the first read of each state file by a late client fails once (transient store fault): a done or canceled
+				// diamond must not look freshly initialized because of it
+				prep = func(a *memstore.Actor) {
+					failed := map[string]int{}
+					var mu sync.Mutex
+					a.SetFault(func(c memstore.Call) error {
+						if c.Op != "get" || !strings.Contains(c.Key, p.LateFaults) {
+							return nil
+						}
+						mu.Lock()
+						defer mu.Unlock()
+						// the client reads the diamond's state twice (once to clone its descriptor, as the CLI does, once
+						// in the readiness check of the operation itself): both reads are hit
+						if failed[c.Key] >= 2 {
+							return nil
+						}
+						failed[c.Key]++
+						res.Stat("state_file_reads_failed_once", 1)
+						return memstore.ErrInjected
+					})
+				}
+			}
+			cl := s.start(o, fmt.Sprintf("late%d-%s", i, o.Op), prep)
 			if !wait(cl, patience) {
 				return false
+			}
+		}
+		// the same late operations once more, fault-free (a client that was refused because of the fault retries)
+		if p.LateFaults != "" {
+			for i, o := range p.Late {
+				cl := s.start(o, fmt.Sprintf("later%d-%s", i, o.Op), nil)
+				if !wait(cl, patience) {
+					return false
+				}
 			}
 		}
 		return true
